@@ -190,12 +190,16 @@ Section Lifted.
     let r := rk ltb vals in
     nodes_rel (rank_rel ltb vals)
               (sup_fit ltb zero top labels w)
-              (sup_fit Z.ltb (r zero) (r top) labels (fun p q => r (clip2 n zero w p q))).
+              (sup_fit Z.ltb (r zero) (r top) labels (fun p q => r (w p q))).
   Proof.
     intros n vals r.
     destruct (sup_fit_ext_bounded ltb zero top labels w (clip2 n zero w)) as [E _].
     { intros p q Hp Hq. symmetry. now apply clip2_below. }
-    rewrite E. apply (param_sup_fit (rank_rel ltb vals) ltb Z.ltb (rank_rel_compat ltb O vals)).
+    destruct (sup_fit_ext_bounded Z.ltb (r zero) (r top) labels
+                (fun p q => r (w p q)) (fun p q => r (clip2 n zero w p q))) as [EZ _].
+    { intros p q Hp Hq. now rewrite clip2_below. }
+    rewrite E, EZ.
+    apply (param_sup_fit (rank_rel ltb vals) ltb Z.ltb (rank_rel_compat ltb O vals)).
     - split; [now left | reflexivity].
     - split; [right; now left | reflexivity].
     - intros p q. split; [|reflexivity]. apply clip2_in; [now left|].
